@@ -13,7 +13,9 @@ node and the "duplicate edge, discard cycle" test — then the support update an
 search finds is left.  Open choices, all universally quantified:
 
 * `order` : iteration order of `spanning_forest`'s `unordered_set`,
-* `pick`  : behaviour of the two d-ary heaps (any rule that hands out a queued node of minimum label, `PickOK`),
+* `pick`  : behaviour of the two d-ary heaps: `pick k i L step cands` = the node handed out in phase `k`, search `i`
+            (vertex / signed edge) with weight limit `L`, at step `step`, among the queued nodes `cands` of minimum label
+            (any such rule, `PickOK`; a real heap's history-dependent tie-breaking is an instance),
 * `σ`     : per phase, the iteration order of the `std::set<edge_descriptor>` of signed edges (address order of the edge
             nodes — the memory layout),
 * `perm`, `scheds` (TBB): the order in which the concurrent `push_back`s filled the support vector, and the execution of
@@ -28,14 +30,14 @@ open Parmcb
 
 /-- `mcb_sva_signed` -/
 theorem c02_signed_end_to_end (g : Graph) (hs : g.simpleB = true) (hp : g.positiveB = true)
-    (order : List Nat) (ho : order.Perm (List.range g.n)) (pick : List Nat → Nat) (hpick : PickOK pick)
+    (order : List Nat) (ho : order.Perm (List.range g.n)) (pick : Nat → PickFam) (hpick : ∀ k i L, PickOK (pick k i L))
     (σ : Nat → List Nat → List Nat) (hσ : ∀ k S, (σ k S).Perm S) :
     McbCorrect g order (mcbSigned g order pick σ) :=
   mcbSigned_correct g hs hp order ho pick hpick σ hσ
 
 /-- `mcb_sva_signed_tbb`, for every execution -/
 theorem c03_signed_tbb_end_to_end (g : Graph) (hs : g.simpleB = true) (hp : g.positiveB = true)
-    (order : List Nat) (ho : order.Perm (List.range g.n)) (pick : List Nat → Nat) (hpick : PickOK pick)
+    (order : List Nat) (ho : order.Perm (List.range g.n)) (pick : Nat → PickFam) (hpick : ∀ k i L, PickOK (pick k i L))
     (σ : Nat → List Nat → List Nat) (hσ : ∀ k S, (σ k S).Perm S)
     (perm : List Nat) (hperm : perm.Perm (List.range (createIndex g order).dim))
     (scheds : Nat → List Nat → Sched)
@@ -47,7 +49,7 @@ open BiDijL in
 /-- one call of the literal `bidirectional_signed_dijkstra` INCLUDING the path reconstruction: what is returned is the
 edge set of a walk without repeated edge whose weight is the distance, below the limit … -/
 theorem c02_search_sound (adjE : Array (List (Nat × Int × Nat))) (wOf : Nat → Int) (h : AdjEOK adjE wOf)
-    (pick : List Nat → Nat) (hp : PickOK pick) (limit : Option Int) (s t : Nat)
+    (pick : Pick) (hp : PickOK pick) (limit : Option Int) (s t : Nat)
     (hs : s < adjE.size) (ht : t < adjE.size) (hst : s ≠ t) (w : Int) (Z : List Nat)
     (hres : biSearch adjE pick wOf limit s t = some (w, Z)) :
     ∃ es, EWalk adjE s t es ∧ es.Nodup ∧ Z = setOf es ∧ w = (es.map wOf).sum ∧
@@ -58,7 +60,7 @@ open BiDijL in
 /-- … and when the distance is below the limit a result of that weight is returned, unless the reconstructed shortest
 walk repeats an edge -/
 theorem c02_search_complete (adjE : Array (List (Nat × Int × Nat))) (wOf : Nat → Int) (h : AdjEOK adjE wOf)
-    (pick : List Nat → Nat) (hp : PickOK pick) (limit : Option Int) (s t : Nat)
+    (pick : Pick) (hp : PickOK pick) (limit : Option Int) (s t : Nat)
     (hs : s < adjE.size) (ht : t < adjE.size) (hst : s ≠ t) (D : Int)
     (hD : IsDist (projAdj adjE) s t D) (hl : Below limit D) :
     (∃ Z, biSearch adjE pick wOf limit s t = some (D, Z)) ∨
@@ -68,16 +70,16 @@ theorem c02_search_complete (adjE : Array (List (Nat × Int × Nat))) (wOf : Nat
 
 /-- one phase, both branches -/
 theorem c02_signed_phase (g : Graph) (hs : g.simpleB = true) (hp : g.positiveB = true)
-    (pick : List Nat → Nat) (hpick : PickOK pick) (S : List Nat) (hS : StrictSorted S) (hSm : ∀ e ∈ S, e < g.m)
+    (pk : PickFam) (hpk : ∀ i L, PickOK (pk i L)) (S : List Nat) (hS : StrictSorted S) (hSm : ∀ e ∈ S, e < g.m)
     (σ : List Nat) (hσ : σ.Perm S) (hex : ∃ Z, EvenSet g Z ∧ dotPar Z S = true) :
-    SignedAlgoL.PhaseFound g S (signedPhaseSearch g pick σ S) :=
-  SignedAlgoL.signedPhaseSearch_ok g hs hp pick hpick S hS hSm σ hσ hex
+    SignedAlgoL.PhaseFound g S (signedPhaseSearch g pk σ S) :=
+  SignedAlgoL.signedPhaseSearch_ok g hs hp pk hpk S hS hSm σ hσ hex
 
 /-- non-vacuity: the triangle 0-1-2 with weights 1,2,3 under the two concrete heaps of the driver -/
 example :
     let g : Graph := { n := 3, edges := [(0, 1, 1), (1, 2, 2), (2, 0, 3)] }
     g.simpleB = true ∧ g.positiveB = true ∧
-    (mcbSigned g [0, 1, 2] pickHead (fun _ S => S)).cycles = [[0, 1, 2]] ∧
-    (mcbSigned g [2, 0, 1] pickLast (fun _ S => S.reverse)).weight = 6 := by decide
+    (mcbSigned g [0, 1, 2] (fun _ _ _ => pickHead) (fun _ S => S)).cycles = [[0, 1, 2]] ∧
+    (mcbSigned g [2, 0, 1] (fun _ _ _ => pickLast) (fun _ S => S.reverse)).weight = 6 := by decide
 
 end Parmcb.C02
